@@ -317,9 +317,13 @@ def apply_step(g, st):
         g.rename_edge_id(st['cur'], st['new'])
     elif k == 'add':
         other = build_graph(st['other'])
+        sn = [int(x) for x in (g.nodes.keys() & other.nodes.keys())]
+        se = [int(x) for x in (g.edges.keys() & other.edges.keys())]
         if st.get('with_orders', True):
-            st['shared_nids'] = [int(x) for x in (g.nodes.keys() & other.nodes.keys())]
-            st['shared_eids'] = [int(x) for x in (g.edges.keys() & other.edges.keys())]
+            st['shared_nids'], st['shared_eids'] = sn, se
+        else:
+            # the model iterates ascending; remember whether CPython did too
+            st['asc'] = bool(sn == sorted(sn) and se == sorted(se))
         g.add(other)
     elif k == 'insert_opchain':
         g._insert_opchain(st['nid_start'], st['nid_end'], st['oids'], [dec(c) for c in st['coeffs']], st['qnums'], st['direction'])
@@ -468,13 +472,14 @@ IMPL = {'og.from_opchains': impl_from_opchains, 'og.from_optrees': impl_from_opt
 
 
 def run_ops(corr, ops, metas):
-    """run every op on the real code (first: `add` steps get their set orders filled in), then on the model; record"""
+    """run every op on the real code (first: `add` steps get their set orders filled in), then on the model; record.
+    meta: 'cls' (value or callable(op, impl, branches)), 'branches', 'cmp_keys' (value or callable(op))"""
     impls = []
     for op in ops:
         try:
             impls.append(IMPL[op['op']](op))
         except CaseTimeout:
-            impls.append({'ok': False, 'err': 'timeout'})
+            impls.append({'ok': False, 'err': 'fuel'})
     replies = common.drive(ops)
     for op, im, mo, meta in zip(ops, impls, replies, metas):
         br = list(meta.get('branches', []))
@@ -484,10 +489,16 @@ def run_ops(corr, ops, metas):
             br.append('err=' + str(im.get('err')))
         br += branch_sig(op, im)
         cmp_keys = meta.get('cmp_keys')
+        if callable(cmp_keys):
+            cmp_keys = cmp_keys(op)
+        im_c, mo_c = im, mo
         if cmp_keys is not None:
-            im = project(im, cmp_keys)
-            mo = project(mo, cmp_keys)
-        corr.add(op, im, mo, cls=meta.get('cls'), branches=br)
+            im_c = project(im, cmp_keys)
+            mo_c = project(mo, cmp_keys)
+        cls = meta.get('cls')
+        if callable(cls):
+            cls = cls(op, im, br)
+        corr.add(op, im_c, mo_c, cls=cls, branches=br)
     return impls, replies
 
 
@@ -634,7 +645,7 @@ def exhaustive_chain_lists(L, maxchains, nids, coeffs):
             yield [list(c) for c in combo]
 
 
-def gen_layered_graph(rng, L=None, idbase=None, charged=None, maxw=3, dangling=False):
+def gen_layered_graph(rng, L=None, idbase=None, charged=None, maxw=3, dangling=False, twins=None):
     """
     random consistent layered graph as raw input encoding.
     parallel edges, multi-operator edges (also repeated ids inside one edge and cancelling coefficients),
@@ -642,6 +653,8 @@ def gen_layered_graph(rng, L=None, idbase=None, charged=None, maxw=3, dangling=F
     """
     if L is None:
         L = int(rng.integers(1, 5))
+    if twins is None:
+        twins = bool(rng.random() < 0.5)
     widths = [1] + [int(rng.integers(1, maxw + 1)) for _ in range(L - 1)] + [1]
     nn = sum(widths)
     lo = int(rng.integers(-6, 4)) if idbase is None else idbase
@@ -697,6 +710,29 @@ def gen_layered_graph(rng, L=None, idbase=None, charged=None, maxw=3, dangling=F
         if rng.random() < 0.1 and opics:
             opics.append([opics[0][0], enc(-frac(opics[0][1]))])      # cancels inside the edge
         edges.append([eid, [x, y], opics])
+    if twins and L >= 2:
+        # duplicate an inner node that has a single edge on one side, together with that edge (same operators,
+        # same charge): the pair is a candidate for a node merge
+        for _ in range(int(rng.integers(1, 3))):
+            li = int(rng.integers(1, L))
+            side = int(rng.integers(0, 2))           # 0: single in-edge is copied, 1: single out-edge is copied
+            cands = [v for v in layers[li] if sum(1 for e in edges if e[1][1 - side] == v) == 1]
+            if not cands:
+                continue
+            v = cands[int(rng.integers(0, len(cands)))]
+            e0 = [e for e in edges if e[1][1 - side] == v][0]
+            v2 = max(nids) + 1
+            nids.append(v2); layers[li].append(v2); qn[v2] = qn[v]
+            ne2 = max([e[0] for e in edges]) + 1
+            edges.append([ne2, [e0[1][0], v2] if side == 0 else [v2, e0[1][1]], [list(p) for p in e0[2]]])
+            # the other side of the twin: copies of some of the original's edges or fresh ones
+            others = [e for e in edges if e[1][side] == v]
+            for e in others:
+                if rng.random() < 0.7 or e is others[0]:
+                    ne2 += 1
+                    opics = [list(p) for p in e[2]] if rng.random() < 0.6 else [[int(rng.integers(0, 3)), enc(float(rng.choice([0.5, 1.0, 2.0])))]]
+                    edges.append([ne2, [v2, e[1][1]] if side == 0 else [e[1][0], v2], opics])
+        nn = len(nids)
     order = [int(i) for i in rng.permutation(len(edges))]
     edges = [edges[i] for i in order]
     nodes = []
